@@ -80,4 +80,79 @@ fn main() {
         pub fn dialect_precs(d: &dyn Dialect) -> Vec<(&'static str, u8)> { vec![#(#precs),*] }
     };
     std::fs::write(Path::new(&out).join("dialect_flags.rs"), fl.to_string()).unwrap();
+    gen_builder_setters(&out);
+}
+
+/// C19: one test closure per builder setter, generated from the current source.
+fn gen_builder_setters(out: &str) {
+    let p = "/repo/src/ast/helpers/stmt_create_table.rs";
+    println!("cargo:rerun-if-changed={p}");
+    let file = syn::parse_file(&std::fs::read_to_string(p).expect("read builder")).expect("parse builder");
+    let mut field_ty = std::collections::BTreeMap::new();
+    for it in &file.items {
+        if let syn::Item::Struct(st) = it {
+            if st.ident == "CreateTableBuilder" {
+                for f in &st.fields {
+                    let ty = &f.ty;
+                    field_ty.insert(f.ident.as_ref().unwrap().to_string(), quote!(#ty).to_string());
+                }
+            }
+        }
+    }
+    let mut cases = vec![];
+    let mut skipped = vec![];
+    for it in &file.items {
+        if let syn::Item::Impl(im) = it {
+            if im.trait_.is_some() {
+                continue;
+            }
+            for ii in &im.items {
+                if let syn::ImplItem::Fn(f) = ii {
+                    if f.sig.inputs.len() != 2 || !matches!(f.vis, syn::Visibility::Public(_)) {
+                        continue;
+                    }
+                    let name = &f.sig.ident;
+                    let pty = match &f.sig.inputs[1] {
+                        syn::FnArg::Typed(pt) => { let t = &pt.ty; quote!(#t).to_string() }
+                        _ => continue,
+                    };
+                    // first statement `self.F = ...`
+                    let mut field = None;
+                    if let Some(syn::Stmt::Expr(syn::Expr::Assign(a), _)) = f.block.stmts.first() {
+                        if let syn::Expr::Field(fe) = &*a.left {
+                            if let syn::Member::Named(n) = &fe.member {
+                                field = Some(n.clone());
+                            }
+                        }
+                    }
+                    let n = name.to_string();
+                    match field {
+                        Some(fl) if field_ty.get(&fl.to_string()) == Some(&pty) => {
+                            let fls = fl.to_string();
+                            cases.push(quote! {
+                                SetterCase {
+                                    name: #n,
+                                    field: #fls,
+                                    apply: |b, s2| b.#name(s2.#fl.clone()),
+                                    expect: |e, s2| e.#fl = s2.#fl.clone(),
+                                }
+                            });
+                        }
+                        _ => skipped.push(n),
+                    }
+                }
+            }
+        }
+    }
+    let code = quote! {
+        pub struct SetterCase {
+            pub name: &'static str,
+            pub field: &'static str,
+            pub apply: fn(CreateTableBuilder, &CreateTable) -> CreateTableBuilder,
+            pub expect: fn(&mut CreateTable, &CreateTable),
+        }
+        pub fn setter_cases() -> Vec<SetterCase> { vec![#(#cases),*] }
+        pub const SETTERS_NOT_GENERATED: &[&str] = &[#(#skipped),*];
+    };
+    std::fs::write(Path::new(out).join("builder_setters.rs"), code.to_string()).unwrap();
 }
